@@ -1194,7 +1194,7 @@ func (j *c14Job) reportImage(diffs []c14Diff, phase string, im c14Image) {
 func TestC14(t *testing.T) {
 	r := vkit.Start(t, "C14", "fault_enumeration")
 	defer r.Finish()
-	r.Rule("case = one history of 8–22 ops (create 1–5 series from a pool of 42 over 3 measurements × 3 escape-heavy tag keys × 3 values; drop series the way the engine does: Index.DropSeries (cascade flag random) + DropMeasurementIfSeriesNotExist + series-file tombstone; drop measurement = drop all its series; Compact()+Wait() until quiescent; close+reopen) on a real tsi1.Index (MaxLogFileSize 1 B–1 MB so that logs roll into index files and level compactions happen, 1/2/8 partitions), run twice: tag-value cache 100 and 0. After every op every answer of MeasurementIterator, MeasurementExists, TagKeyIterator, HasTagKey, TagValueIterator, HasTagValue and the three series-id iterators (through tsdb.IndexSet) is compared with the model of the live series. Crash histories: for one op the directory is copied before/after, every .tsl the op appended to is torn at EVERY byte (clean cut, zero fill, 0xA5 fill; other logs before/after), compactions get the two manifest-boundary images, each image is reopened in a child process, observed, written to, restarted again. non-trivial = history creates and drops; distinct = (cache, config, op list)")
+	r.Rule("case = one history of 8–22 ops (create 1–5 series from a pool of 42 over 3 measurements × 3 escape-heavy tag keys × 3 values; drop series the way the engine does: Index.DropSeries (cascade flag random) + DropMeasurementIfSeriesNotExist + series-file tombstone; drop measurement = drop all its series; Compact()+Wait() until quiescent; close+reopen) on a real tsi1.Index (MaxLogFileSize 1 B–1 MB so that logs roll into index files and level compactions happen, 1/2/8 partitions), run twice: tag-value cache 100 and 0. After every op every answer of MeasurementIterator, MeasurementExists, TagKeyIterator, HasTagKey, TagValueIterator, HasTagValue and the three series-id iterators (through tsdb.IndexSet) is compared with the model of the live series. Observations are made at quiescent step boundaries (no compaction running or pending). 3 (quick) / 30 (thorough) crash histories: one op of an assigned kind (create / drop series / drop measurement / compaction) has the directory copied before/after, every .tsl the op appended to is torn at every byte in thorough (quick: ≈160 images per op — clean cut at every byte of small regions, larger regions and the zero/0xA5 fills thinned; other logs before/after; series file as the real write order implies), compactions get the two manifest-boundary images, each image is reopened in a child process, observed, written to, restarted again. non-trivial = history creates and drops; distinct = (cache, config, op list)")
 	r.Assume("a dropped series is also tombstoned in the series file (single-shard behaviour of the engine) except in histories marked series_file=kept, which model a series that other shards still hold",
 		"crash rule: the recovered series set lies between the state before and after the op in flight and every other answer lies between the answers derived from those two states; compaction changes nothing")
 	rep := newGixReporter(r, 1)
